@@ -25,22 +25,28 @@ AllPins(c) == 1..Len(c.pins)
 
 \* a point read of a key inside the pinned set or region
 PointRead(c, al, k) == {p \in al : EnvIn(k, Env(c, p))}
-ScanRead(c, al, by, k) == {p \in al : Env(c, p).tp \in {"PREFIX", "RANGE"} /\ p \notin by /\ ~EnvBefore(k, Env(c, p))}
-Beyond(c, al, k) == {p \in al : ~EnvIn(k, Env(c, p))}
+\* `by[p]` counts the reads past the end of envelope p in the current poll.  A plain statement may make one (the read that
+\* detects the end); a statement whose single poll drives the scan several times (LIMIT skipping, ORDER BY draining: the
+\* record says so in `slack`) may make 1 + slack: one per internal poll that has to find the end again.
+ScanRead(c, al, by, k) == {p \in al : /\ Env(c, p).tp \in {"PREFIX", "RANGE"} /\ ~EnvBefore(k, Env(c, p))
+                                      /\ IF EnvIn(k, Env(c, p)) THEN by[p] = 0 ELSE by[p] <= c.slack}
+Bump(c, by, a2, k) == [p \in 1..Len(c.pins) |-> IF p \in a2 /\ ~EnvIn(k, Env(c, p)) THEN by[p] + 1 ELSE by[p]]
+Zero(c) == [p \in 1..Len(c.pins) |-> 0]
 
 \* effect of one event: [ok, alive, beyond]
 Apply(c, ev, al, by) ==
-  IF ev.op \in {"Poll", "BatchDelete", "Delete"} THEN [ok |-> TRUE, alive |-> al, beyond |-> {}]
+  IF ev.op \in {"Poll", "BatchDelete", "Delete"} THEN [ok |-> TRUE, alive |-> al, beyond |-> Zero(c)]
   ELSE IF ev.op = "Get" THEN
        LET a2 == PointRead(c, al, ev.k) IN [ok |-> ~c.unsat /\ a2 # {}, alive |-> a2, beyond |-> by]
   ELSE IF ev.op = "Next" THEN
        IF c.unsat THEN [ok |-> FALSE, alive |-> al, beyond |-> by]
        ELSE IF ~ev.ok THEN [ok |-> \E p \in al : Env(c, p).tp \in {"PREFIX", "RANGE"}, alive |-> {p \in al : Env(c, p).tp \in {"PREFIX", "RANGE"}}, beyond |-> by]
-       ELSE LET a2 == ScanRead(c, al, by, ev.k) IN [ok |-> a2 # {}, alive |-> a2, beyond |-> by \cup Beyond(c, a2, ev.k)]
+       ELSE LET a2 == ScanRead(c, al, by, ev.k) IN [ok |-> a2 # {}, alive |-> a2, beyond |-> Bump(c, by, a2, ev.k)]
   ELSE [ok |-> TRUE, alive |-> al, beyond |-> by]
 
-Init == l = 1 /\ j = 1 /\ beyond = {} /\ alive = IF Len(Trace) >= 1 THEN AllPins(Trace[1]) ELSE {}
-NextCase == /\ l' = l + 1 /\ j' = 1 /\ beyond' = {}
+Init == l = 1 /\ j = 1 /\ alive = (IF Len(Trace) >= 1 THEN AllPins(Trace[1]) ELSE {}) /\ beyond = (IF Len(Trace) >= 1 THEN Zero(Trace[1]) ELSE <<>>)
+NextCase == /\ l' = l + 1 /\ j' = 1
+            /\ beyond' = IF l + 1 <= Len(Trace) THEN Zero(Trace[l + 1]) ELSE <<>>
             /\ alive' = IF l + 1 <= Len(Trace) THEN AllPins(Trace[l + 1]) ELSE {}
 Next == /\ l <= Len(Trace)
         /\ IF j > Len(Case.events) THEN NextCase
